@@ -754,12 +754,24 @@ func corpusFor(t types.Type, qual types.Qualifier) []string {
 			return []string{"new(" + types.TypeString(u.Elem(), qual) + ")"}
 		}
 	case *types.Interface:
+		if ts == "io.Reader" {
+			var out []string
+			for _, d := range []string{"}", "{\"a\":1}", "", "{", "<a>1</a>", "</a>", "x<a/>", "{\"a\":\"x\\\\\"}{\"b\":2}", "<a>h<b/></a>", " {\"a\":1} {\"b\":2}", "<a/><b/>"} {
+				out = append(out, "io.Reader(strings.NewReader("+strconv.Quote(d)+"))")
+				out = append(out, "io.Reader(&verifSchedReader{data: []byte("+strconv.Quote(d)+"), eofWithData: true})")
+				out = append(out, "io.Reader(&verifSchedReader{data: []byte("+strconv.Quote(d)+"), zeroReads: true})")
+			}
+			return out
+		}
+		if ts == "io.Writer" {
+			return []string{"io.Writer(new(bytes.Buffer))"}
+		}
 		if u.NumMethods() == 0 {
 			return []string{"interface{}(" + sample + ")", `interface{}(map[string]interface{}{"*": 1, "a": 2})`, "interface{}(nil)", `interface{}("s")`, `interface{}([]interface{}{"p", map[string]interface{}{"k": "v"}})`, "interface{}(float64(1))", `interface{}(map[string]interface{}{"k": "v"})`, `interface{}("k:v")`, `interface{}("k:v:bool")`, `interface{}(map[string]interface{}{})`, `interface{}(3)`}
 		}
 	case *types.Map:
 		if typeKey(u) == "map[string]interface{}" {
-			return []string{ts + "(" + sample + ")", ts + `{"*": 1, "a": 2}`, ts + "(nil)", ts + "{}", ts + `{"k": "v"}`, ts + `{"": "x"}`, ts + `{"!k": "*"}`, ts + `{"a": map[string]interface{}{"k": "v"}}`}
+			return []string{ts + "(" + sample + ")", ts + `{"*": 1, "a": 2}`, ts + `{"a": map[string]interface{}{"#comment": map[string]interface{}{"#text": 1.5, "#seq": 0}}}`, ts + `{"a": map[string]interface{}{"#attr": map[string]interface{}{"x": "v"}, "#seq": 0}}`, ts + `{"a": map[string]interface{}{"#text": "head", "#seq": 0, "b": map[string]interface{}{"#seq": 1}}}`, ts + "(nil)", ts + "{}", ts + `{"k": "v"}`, ts + `{"": "x"}`, ts + `{"!k": "*"}`, ts + `{"a": map[string]interface{}{"k": "v"}}`}
 		}
 	case *types.Slice:
 		if isByte(u.Elem()) {
@@ -811,7 +823,7 @@ func corpusTestFor(o *Obligation, fn *ssa.Function, gsets []string, own bool) st
 		return ""
 	}
 	var sb strings.Builder
-	sb.WriteString("//go:build verif\n// +build verif\n\npackage " + pkg.Name() + "\n\nimport (\n\t\"fmt\"\n\t\"reflect\"\n\t\"testing\"\n)\n\nvar _ = reflect.DeepEqual\n\ntype verifOpaque int\n\n")
+	sb.WriteString("//go:build verif\n// +build verif\n\npackage " + pkg.Name() + "\n\nimport (\n\t\"bytes\"\n\t\"fmt\"\n\t\"io\"\n\t\"reflect\"\n\t\"strings\"\n\t\"testing\"\n)\n\nvar _ = reflect.DeepEqual\nvar _ = strings.NewReader\nvar _ = bytes.NewBuffer\nvar _ io.Reader\n\ntype verifOpaque int\n\n" + schedReaderSrc)
 	sig := fn.Signature
 	sb.WriteString("func TestVerifReplay(t *testing.T) {\n")
 	sb.WriteString(strings.Join(gsets, "\n") + "\n")
@@ -996,16 +1008,25 @@ func replayVia(o *Obligation, repo, scratch string) (string, bool) {
 		if vf == nil {
 			continue
 		}
-		src := corpusTestFor(o, vf, gsets, false)
-		if src == "" {
-			continue
+		for attempt, gs := range [][]string{gsets, nil} {
+			what := "with the option values of the model"
+			if attempt == 1 {
+				if len(gsets) == 0 {
+					break
+				}
+				what = "with the default option values"
+			}
+			src := corpusTestFor(o, vf, gs, false)
+			if src == "" {
+				continue
+			}
+			res := runReplayTest(c, repo, scratch, src)
+			if strings.Contains(res, "outcome=panic") || strings.Contains(res, "panic:") || strings.Contains(res, "fatal error:") {
+				fmt.Fprintf(&rep, "\ncorpus search through %s %s found a failing input:\n%s\n\ncorpus test:\n%s\nREPRODUCED=true\n", via, what, firstLines(grepLines(res, "VERIF-REPLAY"), 8), src)
+				return rep.String(), true
+			}
+			fmt.Fprintf(&rep, "\ncorpus search through %s %s: no failing input (%s)\n", via, what, firstLines(grepLines(res, "VERIF-REPLAY|FAIL"), 3))
 		}
-		res := runReplayTest(c, repo, scratch, src)
-		if strings.Contains(res, "outcome=panic") || strings.Contains(res, "panic:") {
-			fmt.Fprintf(&rep, "\ncorpus search through %s with the option values of the model found a failing input:\n%s\n\ncorpus test:\n%s\nREPRODUCED=true\n", via, firstLines(grepLines(res, "VERIF-REPLAY"), 8), src)
-			return rep.String(), true
-		}
-		fmt.Fprintf(&rep, "\ncorpus search through %s: no failing input (%s)\n", via, firstLines(grepLines(res, "VERIF-REPLAY|FAIL"), 3))
 	}
 	rep.WriteString("REPRODUCED=false\n")
 	return rep.String(), false
@@ -1023,3 +1044,36 @@ func usesGhostIntrinsic(expr string) bool {
 	}
 	return false
 }
+
+// a reader that exercises the corners of the io.Reader contract: one byte per Read, optionally the last byte
+// together with io.EOF, optionally a (0, nil) read before every byte.
+const schedReaderSrc = `type verifSchedReader struct {
+	data        []byte
+	pos         int
+	eofWithData bool
+	zeroReads   bool
+	zeroNext    bool
+}
+
+func (r *verifSchedReader) Read(p []byte) (int, error) {
+	if r.pos >= len(r.data) {
+		return 0, io.EOF
+	}
+	if len(p) == 0 {
+		return 0, nil
+	}
+	if r.zeroReads {
+		r.zeroNext = !r.zeroNext
+		if r.zeroNext {
+			return 0, nil
+		}
+	}
+	p[0] = r.data[r.pos]
+	r.pos++
+	if r.eofWithData && r.pos == len(r.data) {
+		return 1, io.EOF
+	}
+	return 1, nil
+}
+
+`
